@@ -32,6 +32,7 @@ RULES = {
              'cycle must be notified with the stored value and version, not with a resolved record of an earlier cycle)',
     'C13.h': 'the "an arbiter has registered" predicate is monotone: it is a key test on Watchers.map, and no code removes entries of '
              'Watchers.map (unwatch leaves an empty list)',
+    'C13.j': 'the Arbiter arm of the resolver builds no reply other than Error (no shortcut acknowledges a conflicting write)',
     'C13.e': 'Resolve arm: the primary applies, any other role forwards (both credential branches)',
 }
 
@@ -39,6 +40,7 @@ RULES = {
 def run(ck, m):
     _run(ck, m)
     watchers_monotone(ck, m)
+    lister_covers_records(ck, m)
 
 
 def _run(ck, m):
@@ -69,6 +71,15 @@ def _run(ck, m):
     ck.ob('C13.a', fn, 'no-arbiter-refuses-without-effect', ok_no,
           'without an arbiter the conflict is answered with an Error and nothing is written or sent' if ok_no else
           'the no-arbiter path of the Arbiter arm has effects or no Error', rb.loc(arb))
+    # the Arbiter arm has no successful outcome: whatever it builds itself is a refusal (the write waits for the arbiter)
+    succ = sorted({(s['r'].get('variant'), rb.loc(y)) for y in region for s in rb.blocks[y]['s']
+                   if s['k'] == 'assign' and s['r']['k'] == 'agg' and s['r'].get('adt', '').endswith('bo::Response')
+                   and s['r'].get('variant') != 'Error'})
+    ck.ob('C13.j', fn, 'arbiter-arm-never-answers-success', not succ,
+          'every reply built in the Arbiter arm is an Error: a conflicting write is never acknowledged before the arbiter decided' if not succ else
+          'the Arbiter arm builds a %s reply at %s: that conflicting write is acknowledged, yet no record is written, the arbiter is not told and '
+          'nothing queues behind the pending conflict (a key in conflict resolution only parks the pre-conflict value — a write of that value is '
+          'dropped silently when the arbiter resolves to another one)' % (succ[0][0], [x[1] for x in succ]), rb.loc(arb))
     # ordered steps with an arbiter
     raw_writer = [x for x in with_arb if rb.term(x)['k'] == 'call' and callee(rb.term(x)).endswith('set_value_version')]
     deliver = [x for x in with_arb if rb.term(x)['k'] == 'call' and 'arbiter' in callee(rb.term(x)) and P.bodies.get(callee(rb.term(x))) is not None
@@ -452,3 +463,79 @@ def watchers_monotone(ck, m):
            'is already in conflict resolution is refused with "no arbiter" instead of queueing behind the pending conflict'
            % ['%s@%s' % (short(b.id), b.loc(bi)) for b, bi in removers] if pred else 'arbiter-registered predicate not found'),
           removers[0][0].loc(removers[0][1]) if removers else '')
+
+
+def _norm_template(body, f):
+    """Fmt -> list of ('lit', text) | ('hole',): constant arguments are folded into the text"""
+    out = []
+    for pc in f.pieces:
+        if pc[0] == 'lit':
+            txt = pc[1]
+        else:
+            cs = [const_str(r) for r in origins(body, pc[1])] if pc[1] is not None else [None]
+            txt = cs[0] if len(cs) == 1 and isinstance(cs[0], str) else None
+        if txt is None:
+            out.append(('hole',))
+        elif out and out[-1][0] == 'lit':
+            out[-1] = ('lit', out[-1][1] + txt)
+        else:
+            out.append(('lit', txt))
+    if not out or out[0][0] != 'lit':
+        out.insert(0, ('lit', ''))
+    return out
+
+
+def lister_covers_records(ck, m):
+    """C13.i — the record lister's pattern, instantiated the way each caller uses it, still matches the keys the record
+    writer builds (the pattern and the key come from two format templates that nothing else ties together)"""
+    ck.rule('C13.i', 'the conflict-record lister matches what the record writer writes: with the key left empty (the "list all" call of '
+                     'the arbiter registration) the pattern text occurs in the constant head of every record key; with a key, the text '
+                     'after the key hole is a prefix of the writer template\'s text after its key hole')
+    P = m.prog
+    marker = None
+    temps = []          # (body, Fmt, normalised)
+    for b in P.user_bodies():
+        if b.id.startswith(('nundb::client::', 'nundb::command_line::')):
+            continue
+        for bi, f in core.string_builders(b):
+            nt = _norm_template(b, f)
+            if nt[0][1].startswith('$conflicts') and any(x[0] == 'hole' for x in nt):
+                temps.append((b, f, nt))
+    listers = [(b, f, nt) for b, f, nt in temps if b.locals[0].startswith('std::vec::Vec<')]
+    writers = [(b, f, nt) for b, f, nt in temps if (b, f, nt) not in listers and sum(1 for x in nt if x[0] == 'hole') >= 2]
+    ck.floor('C13.i', len(listers), 1, 'record listers (a $conflicts template in a body that returns a list)')
+    ck.floor('C13.i', len(writers), 1, 'record-key templates ($conflicts template with a key and an id)')
+    if not listers or not writers:
+        return
+    for lb, lf, lt in listers:
+        c0 = lt[0][1]
+        c1 = ''.join(x[1] for x in lt[2:] if x[0] == 'lit') if len(lt) > 2 else ''
+        for wb, wf, wt in writers:
+            d0 = wt[0][1]
+            d1 = wt[2][1] if len(wt) > 2 and wt[2][0] == 'lit' else ''
+            star = c1.endswith('*')
+            okk = d0.endswith(c0.lstrip('*')) and d1.startswith(c1.rstrip('*')) if not star else d0 == c0 and d1.startswith(c1[:-1])
+            ck.ob('C13.i', short(lb.id), 'per-key-pattern-matches:%s' % short(wb.id), okk,
+                  'pattern %r + key + %r lies inside the record key %r + key + %r…' % (c0, c1, d0, d1) if okk else
+                  'the lister builds %r + key + %r, the writer %r + key + %r: the conflict records of a key are not found, the key never '
+                  'counts as pending' % (c0, c1, d0, d1), lb.loc(lf.bi))
+        ncalls = 0
+        for cb, cbi in P.callers().get(lb.id, []):
+            if cb.id.startswith(('nundb::client::', 'nundb::command_line::')):
+                continue
+            tcall = cb.term(cbi)
+            if len(tcall['args']) < 2:
+                continue
+            cs = [const_str(r) for r in origins(cb, tcall['args'][1])]
+            if cs != ['']:
+                continue
+            ncalls += 1
+            text = (c0 + c1)
+            needle = text.rstrip('*') if text.endswith('*') else text.strip('*')
+            bad = [short(wb.id) for wb, wf, wt in writers if needle not in wt[0][1]]
+            ck.ob('C13.i', short(cb.id), 'list-all-pattern-matches-every-record', not bad,
+                  'the list-all call passes an empty key: the pattern %r occurs in the constant head of every record key' % text if not bad else
+                  'the list-all call passes an empty key, so the pattern is %r; a record key starts with %r and continues with the key name: '
+                  'no record matches, a newly registered arbiter is sent none of the unresolved conflicts and resolved records are never cleaned'
+                  % (text, writers[0][2][0][1]), cb.loc(cbi))
+        ck.floor('C13.i', ncalls, 1, 'list-all calls of the record lister (empty key)')
